@@ -47,10 +47,10 @@ def store():
 def store2(rnd=2):
     """round 2: /tmp/wt2/out/Mnn/k (results r2-Mnn-k.txt) -> seeded/Cnn-(k+3); round 3: /tmp/wt5/out, r3-, k+6"""
     head = sh("git -C /repo rev-parse --short HEAD").stdout.strip()
-    base = {2: "/tmp/wt2/out", 3: "/tmp/wt5/out", 4: "/tmp/wt6/out"}[rnd]
+    base = {2: "/tmp/wt2/out", 3: "/tmp/wt5/out", 4: "/tmp/wt6/out", 5: "/tmp/wt7/out"}[rnd]
     for p in PROPS:
         for k in (1, 2, 3):
-            mid = "%s-%d" % (p, k + {2: 3, 3: 6, 4: 6}[rnd])  # round 4 covers the properties round 3 did not
+            mid = "%s-%d" % (p, k + {2: 3, 3: 6, 4: 6, 5: 9}[rnd])  # round 4 covers the properties round 3 did not
             m = "M" + p[1:]
             src = "/tmp/cm/rebased/" + mid
             rebased = os.path.isdir(src)
@@ -75,7 +75,7 @@ def store2(rnd=2):
                 readme = open(src + "/README.md").read()
             meta = {
                 "id": mid, "property": p, "round": rnd,
-                "origin": {2: "second-round sub-agent given only the property record, the summaries of the first-round changes (to avoid repeating them) and a scratch worktree of /repo", 3: "third-round sub-agent given only the property record and a scratch worktree of /repo, asked for a behaviour-preserving-looking refactoring with one subtle semantic slip hidden in it", 4: "fourth-round sub-agent given only the property record and a scratch worktree of /repo, asked for a behaviour-preserving-looking refactoring with one subtle semantic slip hidden in it; the same refactoring with the slip repaired by hand is kept in refactors4/ (or refactors-limits/) and must stay silent"}[rnd] + ("; patch rebased onto a later fix commit by hand (same change)" if rebased else ""),
+                "origin": {2: "second-round sub-agent given only the property record, the summaries of the first-round changes (to avoid repeating them) and a scratch worktree of /repo", 3: "third-round sub-agent given only the property record and a scratch worktree of /repo, asked for a behaviour-preserving-looking refactoring with one subtle semantic slip hidden in it", 4: "fourth-round sub-agent given only the property record and a scratch worktree of /repo, asked for a behaviour-preserving-looking refactoring with one subtle semantic slip hidden in it; the same refactoring with the slip repaired by hand is kept in refactors4/ (or refactors-limits/) and must stay silent", 5: "fifth-round sub-agent given only the property record and a scratch worktree of /repo, asked for a refactoring gone wrong together with its behaviour-preserving twin (the same refactoring without the slip); the twin is kept in refactors6/ (or refactors-limits/S5-*) and must stay silent"}[rnd] + ("; patch rebased onto a later fix commit by hand (same change)" if rebased else ""),
                 "summary": first_para(readme),
                 "confirmed": {"repo_head": head, "result": line,
                               "ran": "tools/confirm_mutant.sh: fresh worktree of /repo HEAD; demo/run.sh on the clean tree (exit 0); git apply patch.diff; go build ./...; (cd tools && go vet ./cmd/); go test -vet=off -count=1 ./... (pass); demo/run.sh on the changed tree (exit != 0)"},
@@ -193,6 +193,8 @@ if __name__ == "__main__":
         store2(3)
     elif cmd == "store4":
         store2(4)
+    elif cmd == "store5":
+        store2(5)
     elif cmd == "store": store()
     elif cmd == "matrix": matrix(sys.argv[2:])
     elif cmd == "index": index()
